@@ -1,0 +1,260 @@
+//go:build verif
+
+// Contracts for the govc verifier (see /verif/DESIGN.md). This file contains
+// comments only; it is compiled only under the build tag "verif" and adds no
+// code to the package.
+
+package fit
+
+//@ import "io"
+//@ import "reflect"
+//@ import "time"
+//@ import "encoding/binary"
+//@ import "github.com/tormoder/fit/dyncrc16"
+//@ import "github.com/tormoder/fit/internal/types"
+
+//@@ ------------------------------------------------------------------ accumu.go
+
+//@ func (a *uint32Accumulator) accumulate(value uint32) (r uint32)
+//@   props C18
+//@   ensures [sum] a.accumuValue == old(a.accumuValue) + ((value - old(a.lastValue)) & old(a.mask))
+//@   ensures [last] a.lastValue == value
+//@   ensures [ret] r == a.accumuValue
+//@   ensures [mask] a.mask == old(a.mask)
+//@   assigns a.accumuValue, a.lastValue
+
+//@ func uint32NewAccumulator(bits uint) (r *uint32Accumulator)
+//@   props C18
+//@   requires bits <= 32
+//@   ensures [fresh] fresh(r)
+//@   ensures [mask] r.mask == uint32((uint64(1)<<bits)-1)
+//@   ensures [zero] r.accumuValue == 0 && r.lastValue == 0
+//@   assigns nothing
+
+//@@ ------------------------------------------------------------------ latlng.go
+
+//@ func NewLatitude(semicircles int32) (r Latitude)
+//@   props C17
+//@   ensures [invalid-iff] r.Invalid() <==> (semicircles == 0x7FFFFFFF || semicircles < -(1<<30) || semicircles > 1<<30)
+//@   ensures [invalid-iff.actual] r.Invalid() <==> (semicircles == 0x7FFFFFFF || semicircles < -(1<<30) || semicircles > (1<<30)-1)
+//@   ensures [stored] !r.Invalid() ==> r.Semicircles() == semicircles
+//@   assigns nothing
+
+//@ func NewLatitudeInvalid() (r Latitude)
+//@   props C17
+//@   ensures [invalid] r.semicircles == 0x7FFFFFFF
+//@   assigns nothing
+
+//@ func NewLongitudeInvalid() (r Longitude)
+//@   props C17
+//@   ensures [invalid] r.semicircles == 0x7FFFFFFF
+//@   assigns nothing
+
+//@ func NewLongitude(semicircles int32) (r Longitude)
+//@   props C17
+//@   ensures [invalid-iff] r.Invalid() <==> semicircles == 0x7FFFFFFF
+//@   ensures [stored] r.Semicircles() == semicircles
+//@   assigns nothing
+
+//@ func (l Latitude) Invalid() (r bool)
+//@   props C17
+//@   ensures [sentinel] r == (l.semicircles == 0x7FFFFFFF)
+//@   assigns nothing
+
+//@ func (l Longitude) Invalid() (r bool)
+//@   props C17
+//@   ensures [sentinel] r == (l.semicircles == 0x7FFFFFFF)
+//@   assigns nothing
+
+//@ func (l Latitude) Semicircles() (r int32)
+//@   props C17
+//@   ensures [stored] r == l.semicircles
+//@   assigns nothing
+
+//@ func (l Longitude) Semicircles() (r int32)
+//@   props C17
+//@   ensures [stored] r == l.semicircles
+//@   assigns nothing
+
+//@@ ------------------------------------------------------------------ consts.go
+
+//@ func (p ProtocolVersion) Major() (r byte)
+//@   props C01 C04
+//@   ensures [spec] r == byte(p)>>4
+//@   assigns nothing
+
+//@@ ------------------------------------------------------------------ messages.go: component expansion
+
+//@ func (x *SessionMsg) expandComponents()
+//@   props C18 C03
+//@   ensures [AvgSpeed] old(x.AvgSpeed) != 0xFFFF ==> x.EnhancedAvgSpeed == uint32(old(x.AvgSpeed))
+//@   ensures [AvgSpeed.invalid] old(x.AvgSpeed) == 0xFFFF ==> x.EnhancedAvgSpeed == old(x.EnhancedAvgSpeed)
+//@   ensures [MaxSpeed] old(x.MaxSpeed) != 0xFFFF ==> x.EnhancedMaxSpeed == uint32(old(x.MaxSpeed))
+//@   ensures [MaxSpeed.invalid] old(x.MaxSpeed) == 0xFFFF ==> x.EnhancedMaxSpeed == old(x.EnhancedMaxSpeed)
+//@   ensures [AvgAltitude] old(x.AvgAltitude) != 0xFFFF ==> x.EnhancedAvgAltitude == uint32(old(x.AvgAltitude))
+//@   ensures [AvgAltitude.invalid] old(x.AvgAltitude) == 0xFFFF ==> x.EnhancedAvgAltitude == old(x.EnhancedAvgAltitude)
+//@   ensures [MaxAltitude] old(x.MaxAltitude) != 0xFFFF ==> x.EnhancedMaxAltitude == uint32(old(x.MaxAltitude))
+//@   ensures [MaxAltitude.invalid] old(x.MaxAltitude) == 0xFFFF ==> x.EnhancedMaxAltitude == old(x.EnhancedMaxAltitude)
+//@   ensures [MinAltitude] old(x.MinAltitude) != 0xFFFF ==> x.EnhancedMinAltitude == uint32(old(x.MinAltitude))
+//@   ensures [MinAltitude.invalid] old(x.MinAltitude) == 0xFFFF ==> x.EnhancedMinAltitude == old(x.EnhancedMinAltitude)
+//@   assigns x.EnhancedAvgSpeed, x.EnhancedMaxSpeed, x.EnhancedAvgAltitude, x.EnhancedMaxAltitude, x.EnhancedMinAltitude
+
+//@ func (x *LapMsg) expandComponents()
+//@   props C18 C03
+//@   ensures [AvgSpeed] old(x.AvgSpeed) != 0xFFFF ==> x.EnhancedAvgSpeed == uint32(old(x.AvgSpeed))
+//@   ensures [AvgSpeed.invalid] old(x.AvgSpeed) == 0xFFFF ==> x.EnhancedAvgSpeed == old(x.EnhancedAvgSpeed)
+//@   ensures [MaxSpeed] old(x.MaxSpeed) != 0xFFFF ==> x.EnhancedMaxSpeed == uint32(old(x.MaxSpeed))
+//@   ensures [MaxSpeed.invalid] old(x.MaxSpeed) == 0xFFFF ==> x.EnhancedMaxSpeed == old(x.EnhancedMaxSpeed)
+//@   ensures [AvgAltitude] old(x.AvgAltitude) != 0xFFFF ==> x.EnhancedAvgAltitude == uint32(old(x.AvgAltitude))
+//@   ensures [AvgAltitude.invalid] old(x.AvgAltitude) == 0xFFFF ==> x.EnhancedAvgAltitude == old(x.EnhancedAvgAltitude)
+//@   ensures [MaxAltitude] old(x.MaxAltitude) != 0xFFFF ==> x.EnhancedMaxAltitude == uint32(old(x.MaxAltitude))
+//@   ensures [MaxAltitude.invalid] old(x.MaxAltitude) == 0xFFFF ==> x.EnhancedMaxAltitude == old(x.EnhancedMaxAltitude)
+//@   ensures [MinAltitude] old(x.MinAltitude) != 0xFFFF ==> x.EnhancedMinAltitude == uint32(old(x.MinAltitude))
+//@   ensures [MinAltitude.invalid] old(x.MinAltitude) == 0xFFFF ==> x.EnhancedMinAltitude == old(x.EnhancedMinAltitude)
+//@   assigns x.EnhancedAvgSpeed, x.EnhancedMaxSpeed, x.EnhancedAvgAltitude, x.EnhancedMaxAltitude, x.EnhancedMinAltitude
+
+//@ func (x *SegmentLapMsg) expandComponents()
+//@   props C18 C03
+//@   ensures [AvgAltitude] old(x.AvgAltitude) != 0xFFFF ==> x.EnhancedAvgAltitude == uint32(old(x.AvgAltitude))
+//@   ensures [AvgAltitude.invalid] old(x.AvgAltitude) == 0xFFFF ==> x.EnhancedAvgAltitude == old(x.EnhancedAvgAltitude)
+//@   ensures [MaxAltitude] old(x.MaxAltitude) != 0xFFFF ==> x.EnhancedMaxAltitude == uint32(old(x.MaxAltitude))
+//@   ensures [MaxAltitude.invalid] old(x.MaxAltitude) == 0xFFFF ==> x.EnhancedMaxAltitude == old(x.EnhancedMaxAltitude)
+//@   ensures [MinAltitude] old(x.MinAltitude) != 0xFFFF ==> x.EnhancedMinAltitude == uint32(old(x.MinAltitude))
+//@   ensures [MinAltitude.invalid] old(x.MinAltitude) == 0xFFFF ==> x.EnhancedMinAltitude == old(x.EnhancedMinAltitude)
+//@   assigns x.EnhancedAvgAltitude, x.EnhancedMaxAltitude, x.EnhancedMinAltitude
+
+//@ func (x *EventMsg) expandComponents()
+//@   props C18 C03
+//@   ensures [Data] old(x.Data16) != 0xFFFF ==> x.Data == uint32(old(x.Data16))
+//@   ensures [Data.invalid] old(x.Data16) == 0xFFFF ==> x.Data == old(x.Data)
+//@   ensures [Score] x.Data != 0xFFFFFFFF && x.Event == EventSportPoint ==> x.Score == uint16(x.Data) && x.OpponentScore == uint16(x.Data>>16)
+//@   ensures [Gear] x.Data != 0xFFFFFFFF && (x.Event == EventFrontGearChange || x.Event == EventRearGearChange) ==> x.RearGearNum == uint8(x.Data) && x.RearGear == uint8(x.Data>>8) && x.FrontGearNum == uint8(x.Data>>16) && x.FrontGear == uint8(x.Data>>24)
+//@   ensures [Score.untouched] !(x.Data != 0xFFFFFFFF && x.Event == EventSportPoint) ==> x.Score == old(x.Score) && x.OpponentScore == old(x.OpponentScore)
+//@   ensures [Gear.untouched] !(x.Data != 0xFFFFFFFF && (x.Event == EventFrontGearChange || x.Event == EventRearGearChange)) ==> x.RearGearNum == old(x.RearGearNum) && x.RearGear == old(x.RearGear) && x.FrontGearNum == old(x.FrontGearNum) && x.FrontGear == old(x.FrontGear)
+//@   assigns x.Data, x.Score, x.OpponentScore, x.RearGearNum, x.RearGear, x.FrontGearNum, x.FrontGear
+
+//@ pred csdValid(x *RecordMsg) := len(x.CompressedSpeedDistance) == 3 && (x.CompressedSpeedDistance[0] != 0xFF || x.CompressedSpeedDistance[1] != 0xFF || x.CompressedSpeedDistance[2] != 0xFF)
+//@ spec distSrc(x *RecordMsg) uint32 := uint32(x.CompressedSpeedDistance[1]>>4) | uint32(x.CompressedSpeedDistance[2])<<4
+//@ spec distSrcActual(x *RecordMsg) uint32 := uint32(x.CompressedSpeedDistance[1]>>4) | uint32(x.CompressedSpeedDistance[2]<<4)
+//@ pred accDistinct() := (accumuDistance == nil || (accumuDistance != accumuTotalCycles && accumuDistance != accumuAccumulatedPower)) && (accumuTotalCycles == nil || accumuTotalCycles != accumuAccumulatedPower)
+//@ spec accVal(a *uint32Accumulator) uint32 := ite(a == nil, 0, a.accumuValue)
+//@ spec accLast(a *uint32Accumulator) uint32 := ite(a == nil, 0, a.lastValue)
+
+//@ func (x *RecordMsg) expandComponents()
+//@   props C18 C03
+//@   locals rangeindex int
+//@   ensures [EnhancedAltitude] old(x.Altitude) != 0xFFFF ==> x.EnhancedAltitude == uint32(old(x.Altitude))
+//@   ensures [EnhancedAltitude.invalid] old(x.Altitude) == 0xFFFF ==> x.EnhancedAltitude == old(x.EnhancedAltitude)
+//@   ensures [EnhancedSpeed] old(x.Speed) != 0xFFFF ==> x.EnhancedSpeed == uint32(old(x.Speed))
+//@   ensures [EnhancedSpeed.invalid] old(x.Speed) == 0xFFFF ==> x.EnhancedSpeed == old(x.EnhancedSpeed)
+//@   ensures [Speed] old(csdValid(x)) ==> x.Speed == uint16(x.CompressedSpeedDistance[0]) | uint16(x.CompressedSpeedDistance[1]&0x0F)<<8
+//@   ensures [Speed.invalid] !old(csdValid(x)) ==> x.Speed == old(x.Speed) && x.Distance == old(x.Distance)
+//@   ensures [Distance] old(csdValid(x)) ==> x.Distance == old(accVal(accumuDistance)) + ((distSrc(x) - old(accLast(accumuDistance))) & 0xFFF)
+//@   ensures [Distance.actual] old(csdValid(x)) ==> x.Distance == old(accVal(accumuDistance)) + ((distSrcActual(x) - old(accLast(accumuDistance))) & ite(old(accumuDistance) == nil, 0xFFF, old(accumuDistance.mask)))
+//@   ensures [TotalCycles] old(accDistinct()) && old(x.Cycles) != 0xFF ==> x.TotalCycles == old(accVal(accumuTotalCycles)) + ((uint32(x.Cycles) - old(accLast(accumuTotalCycles))) & 0xFF)
+//@   ensures [TotalCycles.actual] old(accDistinct()) && old(x.Cycles) != 0xFF ==> x.TotalCycles == old(accVal(accumuTotalCycles)) + ((uint32(x.Cycles) - old(accLast(accumuTotalCycles))) & ite(old(accumuTotalCycles) == nil, 0, old(accumuTotalCycles.mask)))
+//@   ensures [TotalCycles.invalid] old(x.Cycles) == 0xFF ==> x.TotalCycles == old(x.TotalCycles)
+//@   ensures [AccumulatedPower] old(accDistinct()) && old(x.CompressedAccumulatedPower) != 0xFFFF ==> x.AccumulatedPower == old(accVal(accumuAccumulatedPower)) + ((uint32(x.CompressedAccumulatedPower) - old(accLast(accumuAccumulatedPower))) & 0xFFFF)
+//@   ensures [AccumulatedPower.actual] old(accDistinct()) && old(x.CompressedAccumulatedPower) != 0xFFFF ==> x.AccumulatedPower == old(accVal(accumuAccumulatedPower)) + ((uint32(x.CompressedAccumulatedPower) - old(accLast(accumuAccumulatedPower))) & ite(old(accumuAccumulatedPower) == nil, 0, old(accumuAccumulatedPower.mask)))
+//@   ensures [AccumulatedPower.invalid] old(x.CompressedAccumulatedPower) == 0xFFFF ==> x.AccumulatedPower == old(x.AccumulatedPower)
+//@   assigns x.EnhancedAltitude, x.EnhancedSpeed, x.Speed, x.Distance, x.TotalCycles, x.AccumulatedPower
+//@   assigns accumuDistance, accumuTotalCycles, accumuAccumulatedPower
+//@   assigns accumuDistance.accumuValue, accumuDistance.lastValue, accumuTotalCycles.accumuValue, accumuTotalCycles.lastValue, accumuAccumulatedPower.accumuValue, accumuAccumulatedPower.lastValue
+//@   loop 0 invariant [range] -1 <= rangeindex && rangeindex < 3 && len(x.CompressedSpeedDistance) == 3
+//@   loop 0 invariant [allff] forall k in 0..rangeindex+1 :: x.CompressedSpeedDistance[k] == 0xFF
+//@   loop 0 decreases 3 - rangeindex
+
+//@@ ------------------------------------------------------------------ reader.go: buffered reader layer
+
+//@ ghost func pos(r io.Reader) int
+//@ ghost const func instream(r io.Reader, k int) byte
+//@ ghost const func eofpos(r io.Reader) int
+//@ ghost const func faultpos(r io.Reader) int
+
+//@@ representation invariant of the decoder's read buffer
+//@ pred inv_bytes(d *decoder) := 0 <= d.bytes.i && d.bytes.i <= d.bytes.j && d.bytes.j <= 4096 && 0 <= d.bytes.n && d.bytes.n <= d.bytes.limit && d.bytes.n+(d.bytes.j-d.bytes.i) <= d.bytes.limit && d.bytes.limit <= 0xFFFFFFFF
+//@ pred inv_io(d *decoder) := d.r != nil && d.crc != nil && dyncrc16.IsCrc16(d.crc)
+//@@ bytes delivered by the reader but not yet consumed are exactly the buffered ones
+//@ spec framepos(d *decoder) int := pos(d.r) - d.bytes.n - (d.bytes.j - d.bytes.i)
+
+//@ func noEOF(err error) (r error)
+//@   props C01 C11
+//@   ensures [nonnil] (r == nil) <==> (err == nil)
+//@   assigns nothing
+
+//@ func (d *decoder) fill() (err error)
+//@   props C01 C10 C11
+//@   requires [empty] d.bytes.i == d.bytes.j
+//@   requires inv_bytes(d) && inv_io(d)
+//@   ensures [inv] inv_bytes(d) && inv_io(d)
+//@   ensures [progress] err == nil ==> d.bytes.i == 0 && d.bytes.j > 0
+//@   ensures [stuck] err != nil ==> d.bytes.i == d.bytes.j
+//@   ensures [counters] d.bytes.n == old(d.bytes.n) && d.bytes.limit == old(d.bytes.limit)
+//@   ensures [framepos] framepos(d) == old(framepos(d))
+//@   ensures [monotone] pos(d.r) >= old(pos(d.r))
+//@   assigns d.bytes.i, d.bytes.j, d.bytes.buf[..], pos(d.r), dyncrc16.GhostSum(d.crc)
+
+//@ func (d *decoder) readByte() (b byte, err error)
+//@   props C01 C10 C11
+//@   requires inv_bytes(d) && inv_io(d)
+//@   ensures [inv] inv_bytes(d) && inv_io(d)
+//@   ensures [consumed] err == nil ==> d.bytes.n == old(d.bytes.n)+1
+//@   ensures [failed] err != nil ==> d.bytes.n == old(d.bytes.n)
+//@   ensures [limit] d.bytes.limit == old(d.bytes.limit)
+//@   ensures [framepos] framepos(d) == old(framepos(d))
+//@   ensures [monotone] pos(d.r) >= old(pos(d.r))
+//@   assigns d.bytes.i, d.bytes.j, d.bytes.n, d.bytes.buf[..], pos(d.r), dyncrc16.GhostSum(d.crc)
+//@   loop 0 invariant [inv] inv_bytes(d) && inv_io(d) && d.bytes.n == old(d.bytes.n) && d.bytes.limit == old(d.bytes.limit) && framepos(d) == old(framepos(d)) && pos(d.r) >= old(pos(d.r))
+//@   loop 0 decreases ite(d.bytes.i == d.bytes.j, 1, 0)
+
+//@ func (d *decoder) skipByte() (err error)
+//@   props C01 C10 C11
+//@   requires inv_bytes(d) && inv_io(d)
+//@   ensures [inv] inv_bytes(d) && inv_io(d)
+//@   ensures [consumed] err == nil ==> d.bytes.n == old(d.bytes.n)+1
+//@   ensures [failed] err != nil ==> d.bytes.n == old(d.bytes.n)
+//@   ensures [limit] d.bytes.limit == old(d.bytes.limit)
+//@   ensures [framepos] framepos(d) == old(framepos(d))
+//@   ensures [monotone] pos(d.r) >= old(pos(d.r))
+//@   assigns d.bytes.i, d.bytes.j, d.bytes.n, d.bytes.buf[..], pos(d.r), dyncrc16.GhostSum(d.crc)
+//@   loop 0 invariant [inv] inv_bytes(d) && inv_io(d) && d.bytes.n == old(d.bytes.n) && d.bytes.limit == old(d.bytes.limit) && framepos(d) == old(framepos(d)) && pos(d.r) >= old(pos(d.r))
+//@   loop 0 decreases ite(d.bytes.i == d.bytes.j, 1, 0)
+
+//@ func (d *decoder) readFull(p []byte) (err error)
+//@   props C01 C10 C11
+//@   locals n int
+//@   requires inv_bytes(d) && inv_io(d)
+//@   ensures [inv] inv_bytes(d) && inv_io(d)
+//@   ensures [consumed] err == nil ==> d.bytes.n == old(d.bytes.n)+len(p)
+//@   ensures [partial] d.bytes.n >= old(d.bytes.n) && d.bytes.n <= old(d.bytes.n)+len(p)
+//@   ensures [limit] d.bytes.limit == old(d.bytes.limit)
+//@   ensures [framepos] framepos(d) == old(framepos(d))
+//@   ensures [monotone] pos(d.r) >= old(pos(d.r))
+//@   assigns d.bytes.i, d.bytes.j, d.bytes.n, d.bytes.buf[..], p[..], pos(d.r), dyncrc16.GhostSum(d.crc)
+//@   loop 0 invariant [inv] inv_bytes(d) && inv_io(d) && d.bytes.limit == old(d.bytes.limit) && framepos(d) == old(framepos(d)) && pos(d.r) >= old(pos(d.r))
+//@   loop 0 invariant [count] 0 <= len(p) && len(p) <= old(len(p)) && d.bytes.n == old(d.bytes.n)+(old(len(p))-len(p))
+//@   loop 0 invariant [slice] samebase(p, old(p)) && offset(p) == offset(old(p))+(old(len(p))-len(p))
+//@   loop 0 assigns old(p)[..], d.bytes.buf[..]
+//@   loop 0 decreases 2*len(p) + ite(d.bytes.i == d.bytes.j, 1, 0)
+
+//@@ ------------------------------------------------------------------ header.go / reader.go: header, CRC, decode
+
+//@ func checkProtocolVersion(b byte) (err error)
+//@   props C01 C04
+//@   ensures [iff] (err == nil) <==> (b>>4 <= 2)
+//@   ensures [class] !iserr(err, errReadSize) && !isEOF(err)
+//@   assigns nothing
+
+//@@ a stream position p is a clean end of input: EOF strictly before any fault
+//@ pred cleanEnd(r io.Reader, p int) := p == eofpos(r) && eofpos(r) < faultpos(r)
+
+//@ func (d *decoder) decodeHeader() (err error)
+//@   props C01 C10 C11 C04
+//@   requires inv_io(d)
+//@   ensures [inv] inv_io(d)
+//@   ensures [size] err == nil ==> (d.h.Size == 12 || d.h.Size == 14)
+//@   ensures [consumed] err == nil ==> pos(d.r) == old(pos(d.r))+int(d.h.Size)
+//@   ensures [bounded] pos(d.r) >= old(pos(d.r)) && pos(d.r) <= old(pos(d.r))+14
+//@   ensures [clean-eof-only] iserr(err, errReadSize) ==> cleanEnd(d.r, old(pos(d.r))) && pos(d.r) == old(pos(d.r))
+//@   ensures [clean-eof-reported] cleanEnd(d.r, old(pos(d.r))) ==> iserr(err, errReadSize)
+//@   assigns d.h.Size, d.h.ProtocolVersion, d.h.ProfileVersion, d.h.DataSize, d.h.DataType, d.h.CRC, d.tmp[..], pos(d.r), dyncrc16.GhostSum(d.crc)
